@@ -10,6 +10,14 @@ PROPS = {
         text='Verus proves, for all diagrams/levels/cache behaviours, that the real bodies of terminal_bin, reduce, apply_not, apply_bin, apply_ite return a well-formed diagram whose semantics is the propositional connective of the operand semantics',
         note='manager + apply-cache contracts assumed (prelude); partial correctness; sequential recursor; see evidence.assumptions',
     ),
+    'C04': dict(
+        verus=['bdd_simple'],
+        kani=[],
+        level='proof',
+        design_ref='6/C04',
+        text='Verus proves the real bodies of set_pop, quant, restrict, apply_quant, substitute (simple BDD) against iterated-cofactor / override / simultaneous-substitution semantics for all diagrams and variable sets',
+        note='manager + apply-cache contracts assumed (prelude); partial correctness; sequential recursor; see evidence.assumptions',
+    ),
     'C10': dict(
         verus=[],
         kani=['mtbdd_terminal'],
